@@ -390,7 +390,8 @@ def c11(ctx):
     mc(ctx, "Clearsign.tla", "Clearsign.cfg", what="signer => verified; accepted => verified block only; nothing after the block")
     g1 = gen(ctx, "ClearsignGen.tla", "ClearsignGen.cfg", ctx.path("cs.ndjson"), what="documents x keys x keyrings x mutations")
     r = hgen(ctx, "C11", ctx.path("rand.ndjson"))
-    judge(ctx, "C11", vf.cat(ctx.path("vec.ndjson"), g1, r), what="clearsigned input vs ideal-signature rules")
+    gl = gen(ctx, "LongGen.tla", "LongGen_signed.cfg", ctx.path("long.ndjson"), what="signed documents with lines around and beyond the read buffer size")
+    judge(ctx, "C11", vf.cat(ctx.path("vec.ndjson"), g1, r, gl), what="clearsigned input vs ideal-signature rules")
     ctx.assumptions += ["OpenPGP signing, armor decoding and RFC 4880 canonicalisation by golang.org/x/crypto are ground "
                         "truth used to CLASSIFY damaged inputs (never to decide acceptance)"]
 
